@@ -14,6 +14,7 @@ def run(ctx):
     sweeps.run_sweep(ctx, "c11", [[s, 240] for s in seeds], "C11")
     rep.exhaustive = True
     rep.need("cases", rep.counters.get("sweep_c11_cases", 0), 145000)
+    rep.need("sessions_of_different_age_cases", rep.counters.get("sweep_c11_sessions_of_different_age_cases", 0), 100)
     rep.need("second_discover_cases", rep.counters.get("sweep_c11_second_discover_cases", 0), 300)
     rep.need("table_history_cases", rep.counters.get("sweep_c11_table_history_cases", 0), 400)
     rep.need("odd_entry_cases", rep.counters.get("sweep_c11_odd_entry_cases", 0), 100)
